@@ -114,6 +114,8 @@ def dir_flags(d, sample, lang):
     i += 1
     while i < len(toks):
         t = toks[i]
+        if t in ("&&", ";", "||"):
+            break
         if t in ("-o", "-MT", "-MF", "-MQ"):
             i += 2
             continue
@@ -220,10 +222,14 @@ def ensure_facts(units, jobs=16, quiet=False):
             todo.append((u, fl))
     failed = []
     if todo:
-        with ThreadPoolExecutor(max_workers=jobs) as ex:
-            for src, ok, err in ex.map(lambda a: _extract(*a), todo):
-                if not ok:
-                    failed.append((src, err))
+        import fcntl
+        with open(os.path.join(CACHE, ".lock"), "w") as lk:
+            fcntl.flock(lk, fcntl.LOCK_EX)     # one extractor batch at a time (concurrent checks share the cache)
+            todo = [(u, fl) for (u, fl) in todo if not _valid(u, fl)]
+            with ThreadPoolExecutor(max_workers=jobs) as ex:
+                for src, ok, err in ex.map(lambda a: _extract(*a), todo):
+                    if not ok:
+                        failed.append((src, err))
     if failed:
         msg = "; ".join("%s: %s" % (s, e.strip().splitlines()[-1] if e.strip() else "?") for s, e in failed[:5])
         detail = "\n".join(e for _, e in failed[:2])
